@@ -177,3 +177,118 @@ func VK08CreatedDesc()      { vQueryCheck(CreatedDesc) }
 func VK08CreatedAsc()       { vQueryCheck(CreatedAsc) }
 func VK08LastModifiedDesc() { vQueryCheck(LastModifiedDesc) }
 func VK08Unspecified()      { vQueryCheck(UnspecifiedSort) }
+
+// ---- relation constraints (parent / child over camliMember and camliPath:*) ----
+
+// VK08Relation: a parent permanode P and two children C1, C2 (each with an optional 1-byte tag)
+// linked by a history of 3 relation claims on P (add / delete camliMember C, set camliPath:a=C,
+// delete camliPath:a); queries "child any/all has tag V" and "parent any/all has tag V" must
+// return exactly the permanodes for which the relation currently holds.
+func vRelation(srt SortType) {
+	c := index.VerifNewCorpus()
+	c.VerifSetSigner(vSigner, "KEY1")
+	seq := byte(100)
+	claim := func(pn blob.Ref, typ, attr, val string, sec int64) {
+		seq++
+		err := c.VerifMergeClaim(camtypes.Claim{BlobRef: blob.VerifSmallRef(seq), Signer: vSigner, Permanode: pn,
+			Date: time.Unix(sec, 0), Type: typ, Attr: attr, Value: val})
+		vrt.Assume(err == nil)
+	}
+	refs := []blob.Ref{blob.VerifSmallRef(10), blob.VerifSmallRef(11), blob.VerifSmallRef(12)} // P, C1, C2
+	tags := make([]string, 3)
+	for i, r := range refs {
+		c.VerifAddBlobMeta(r, 100, "permanode")
+		claim(r, "set-attribute", "title", "t", int64(10+i))
+		if vrt.Choice(2) == 1 {
+			tags[i] = vXY()
+			claim(r, "set-attribute", "tag", tags[i], int64(20+i))
+		}
+	}
+	// relation history on P
+	member := [3]bool{}
+	path := 0 // child index held by camliPath:a, 0 = none
+	for k := 0; k < 3; k++ {
+		child := 1 + vrt.Choice(2)
+		switch vrt.Choice(4) {
+		case 0:
+			claim(refs[0], "add-attribute", "camliMember", refs[child].String(), int64(40+k))
+			member[child] = true
+		case 1:
+			claim(refs[0], "del-attribute", "camliMember", refs[child].String(), int64(40+k))
+			member[child] = false
+		case 2:
+			claim(refs[0], "set-attribute", "camliPath:a", refs[child].String(), int64(40+k))
+			path = child
+		case 3:
+			claim(refs[0], "del-attribute", "camliPath:a", "", int64(40+k))
+			path = 0
+		}
+	}
+	isChild := func(i int) bool { return i > 0 && (member[i] || path == i) }
+	h := &Handler{index: vIndex{c: c}, corpus: c}
+	v := vXY()
+	leaf := &Constraint{Permanode: &PermanodeConstraint{Attr: "tag", Value: v}}
+	rel := &RelationConstraint{}
+	all := vrt.Bool()
+	if all {
+		rel.All = leaf
+	} else {
+		rel.Any = leaf
+	}
+	parentRel := vrt.Bool()
+	if parentRel {
+		rel.Relation = "parent"
+	} else {
+		rel.Relation = "child"
+	}
+	q := &SearchQuery{Constraint: &Constraint{Permanode: &PermanodeConstraint{Relation: rel}}, Limit: -1, Sort: srt}
+	res, err := h.Query(context.Background(), q)
+	vrt.Assert(err == nil, "a relation query over a corpus succeeds")
+	if err != nil {
+		return
+	}
+	for i, r := range refs {
+		// the related permanodes of i under the relation, and whether they match the leaf
+		var related []int
+		if parentRel {
+			if isChild(i) {
+				related = append(related, 0)
+			}
+		} else if i == 0 {
+			for j := 1; j <= 2; j++ {
+				if isChild(j) {
+					related = append(related, j)
+				}
+			}
+		}
+		good, bad := 0, 0
+		for _, j := range related {
+			if tags[j] == v {
+				good++
+			} else {
+				bad++
+			}
+		}
+		want := good > 0
+		if all {
+			want = good > 0 && bad == 0
+		}
+		n := 0
+		for _, b := range res.Blobs {
+			if b.Blob == r {
+				n++
+			}
+		}
+		if len(related) > 0 {
+			vrt.Cover("related")
+		}
+		if want {
+			vrt.Assert(n == 1, "a permanode whose relation currently holds is returned once")
+		} else {
+			vrt.Assert(n == 0, "a permanode whose relation does not (or no longer) hold is not returned")
+		}
+	}
+}
+
+func VK08RelationUnsorted()    { vRelation(Unsorted) }
+func VK08RelationCreatedDesc() { vRelation(CreatedDesc) }
